@@ -49,8 +49,23 @@ def mode_facts(P, mode):
     fm = FactMap(init.node, assume=base, aliases=al)
     falls = [f for (k, s, f) in fm.exits if k == 'fall']
     consts = None
+    from .facts import truth
     for f in falls:
-        cur = {(a[1], a[2]) for a in f if a[0] == 'def' and a[1].startswith('self.') and a[2] in ('True', 'False', 'None')}
+        cur = set()
+        for a in f:
+            if a[0] == 'def' and a[1].startswith('self.'):
+                if a[2] in ('True', 'False', 'None'):
+                    cur.add((a[1], a[2]))
+                elif isinstance(a[2], str) and a[1] != flag:
+                    # a boolean expression decided by the facts of this mode:  self.is_3d and (...)  is False for a 2D file
+                    try:
+                        e = ast.parse(a[2], mode='eval').body
+                    except SyntaxError:
+                        continue
+                    if isinstance(e, (ast.BoolOp, ast.Compare)) or (isinstance(e, ast.UnaryOp) and isinstance(e.op, ast.Not)):
+                        t = truth(e, f, fm.cc)
+                        if t is not None:
+                            cur.add((a[1], 'True' if t else 'False'))
         consts = cur if consts is None else (consts & cur)
     out = list(base)
     for (attr, val) in sorted(consts or ()):
